@@ -6,6 +6,7 @@ package main
 
 import (
 	"go/ast"
+	"go/constant"
 	"go/token"
 	"go/types"
 	"strings"
@@ -1265,5 +1266,119 @@ func checkSumLineSplit(c *Ctx, rule string) {
 	})
 	if n == 0 {
 		c.Unresolved(rule, "the call that splits a sum-file line in HashFile.UnmarshalText")
+	}
+}
+
+// ---------------------------------------------------------------------------
+// R02l: positions handed to the per-part attribute comparison index the same slices that were sorted.
+
+const ruleTextPartsAlias = "per-part comparison by position: where the shared differ calls IndexPartAttrChanged(from, to, i), the position i comes from a loop over slices that ARE from.Parts / to.Parts (aliases, sorted in place), not copies: the driver re-indexes Index.Parts with i, so a copy sorted separately makes the two sites compare different parts"
+
+func checkPartsAlias(c *Ctx, rule string) {
+	n := 0
+	c.AllFuncs(false, func(fi *FuncInfo) {
+		if fi.Pkg.PkgPath != pSqlx {
+			return
+		}
+		info := fi.Info()
+		for _, call := range callsIn(fi.Decl.Body, true) {
+			se, ok := call.Fun.(*ast.SelectorExpr)
+			if !ok || se.Sel.Name != "IndexPartAttrChanged" || len(call.Args) != 3 {
+				continue
+			}
+			n++
+			c.funcs[fi.Name] = true
+			idxArgs := []ast.Expr{call.Args[0], call.Args[1]}
+			// every local slice of index parts in this function that is sorted or ranged over must be an alias of <index>.Parts
+			bad := ""
+			ast.Inspect(fi.Decl.Body, func(m ast.Node) bool {
+				as, ok := m.(*ast.AssignStmt)
+				if !ok || len(as.Lhs) != len(as.Rhs) {
+					return true
+				}
+				for i, l := range as.Lhs {
+					id, ok := l.(*ast.Ident)
+					if !ok {
+						continue
+					}
+					sl, ok := info.TypeOf(id).Underlying().(*types.Slice)
+					if !ok || !typeIs(derefType(sl.Elem()), pSchema, "IndexPart") {
+						continue
+					}
+					r := ast.Unparen(as.Rhs[i])
+					alias := false
+					if rs, ok := r.(*ast.SelectorExpr); ok && rs.Sel.Name == "Parts" {
+						for _, a := range idxArgs {
+							if types.ExprString(a) == types.ExprString(rs.X) {
+								alias = true
+							}
+						}
+					}
+					if !alias {
+						bad = id.Name + " := " + types.ExprString(r)
+					}
+				}
+				return true
+			})
+			c.Check(rule, fi.Name+"|parts compared by position are the indexes' own Parts", call.Pos(), bad == "", "%s sorts and walks %s, a copy, but passes the position to IndexPartAttrChanged, which indexes the original Index.Parts: after sorting the copy the two sites look at different parts (a spurious or a missed ChangeParts)", fi.Name, bad)
+		}
+	})
+	if n == 0 {
+		c.Unresolved(rule, "calls of IndexPartAttrChanged in the shared differ")
+	}
+}
+
+// ---------------------------------------------------------------------------
+// R06h: writing a directory file replaces its content.
+
+const ruleTextWriteReplaces = "Dir.WriteFile replaces the file: every os.OpenFile used for writing by a migrate.Dir implementation (and by WriteSumFile's path) carries os.O_TRUNC (or the file is written with os.WriteFile / os.Create): a shorter atlas.sum written over a longer one must not keep the old tail, otherwise re-hashing an edited directory leaves it invalid"
+
+func checkWriteReplaces(c *Ctx, rule string) {
+	n := 0
+	var oTrunc, oAppend int64 = -1, -1
+	for _, p := range c.Pkgs {
+		if p.PkgPath == pMigrate {
+			for _, imp := range p.Types.Imports() {
+				if imp.Path() == "os" {
+					if k, ok := imp.Scope().Lookup("O_TRUNC").(*types.Const); ok {
+						oTrunc, _ = constant.Int64Val(k.Val())
+					}
+					if k, ok := imp.Scope().Lookup("O_APPEND").(*types.Const); ok {
+						oAppend, _ = constant.Int64Val(k.Val())
+					}
+				}
+			}
+		}
+	}
+	c.AllFuncs(false, func(fi *FuncInfo) {
+		if !strings.HasPrefix(fi.Pkg.PkgPath, modRoot+"/sql/migrate") && fi.Pkg.PkgPath != pSqltool {
+			return
+		}
+		if fi.Decl.Name.Name != "WriteFile" && fi.Decl.Name.Name != "WriteSumFile" && fi.Decl.Name.Name != "WriteCheckpoint" {
+			return
+		}
+		info := fi.Info()
+		n++
+		c.funcs[fi.Name] = true
+		bad := ""
+		for _, call := range callsIn(fi.Decl.Body, true) {
+			fn := calleeOf(info, call)
+			if fn == nil || fn.Pkg() == nil || fn.Pkg().Path() != "os" || fn.Name() != "OpenFile" || len(call.Args) < 2 {
+				continue
+			}
+			tv := info.Types[call.Args[1]]
+			if tv.Value == nil || oTrunc < 0 {
+				bad = "os.OpenFile with flags that are not a constant expression (" + types.ExprString(call.Args[1]) + ")"
+				continue
+			}
+			flags, _ := constant.Int64Val(tv.Value)
+			if flags&oTrunc == 0 {
+				bad = "os.OpenFile(" + types.ExprString(call.Args[1]) + ") without os.O_TRUNC"
+			}
+		}
+		c.Check(rule, fi.Name+"|the written file is truncated first", fi.Decl.Pos(), bad == "", "%s writes through %s: writing fewer bytes than the file holds keeps the old tail (a re-hashed atlas.sum keeps stale lines and the directory no longer validates)", fi.Name, bad)
+	})
+	if n < 2 {
+		c.Unresolved(rule, "WriteFile implementations of migrate.Dir (found fewer than 2)")
 	}
 }
